@@ -125,7 +125,7 @@ func judgeLoadCase(c loadCase, rec *hx.Rec) string {
 	return ""
 }
 
-const c09Rule = "rapid draws a warrior (length 1..20, one in thirty up to 400; every form legal in the dialect; fields across [0,M) incl. M/2, M/2+1, M-1; every entry point), a core size and a layout: our printer writes the canonical load file ('94: ORG n + OP.MOD lines [+ END]; '88: OP lines + END n) with fields printed as f or f-M and any subset of {case, extra blanks/tabs, CR-LF, blank lines, comment lines and end-of-line comments, metadata comments, trailing comment line, final newline dropped}; ParseLoadFile and CompileWarrior of that text must both reproduce code and entry point. Non-trivial: >= 2 instructions, non-zero entry or signed spelling, and at least one perturbation; distinct by case hash."
+const c09Rule = "rapid draws a warrior (length 1..20, one in thirty up to 400; every form legal in the dialect; fields across [0,M) incl. M/2, M/2+1, M-1; every entry point), a core size and a layout: our printer writes the canonical load file ('94: ORG n + OP.MOD lines [+ END]; '88: OP lines + END n) with fields printed as f or f-M and any subset of {case, extra blanks/tabs, CR-LF, blank lines, comment lines and end-of-line comments, metadata comments at the top and between any two lines, trailing comment line, final newline dropped}; ParseLoadFile and CompileWarrior of that text must both reproduce code and entry point. Non-trivial: >= 2 instructions, non-zero entry or signed spelling, and at least one perturbation; distinct by case hash."
 
 func TestC09(t *testing.T) {
 	hx.Run(t, hx.Prop[loadCase]{
